@@ -45,12 +45,13 @@ SeqOfSet(S) == IF S = {} THEN <<>> ELSE LET m == CHOOSE x \in S : \A y \in S : x
 \* edge views: [kind |-> "type", ty] = net.<Type>;  [kind |-> "kth", ty, k] = net.<Type>.edge(k)
 \*             [kind |-> "rows", ty, k] = net.select(nodes = RowSets[k]): the synapses with BOTH ends among these compartments;
 \*             a key <ty>_w set through it reaches the synapses of that type inside it (other types share the view, not the column)
-RowSets == <<{0, 1, 2, 3, 4}, {3, 4, 5}>>
+RowSets == <<{0, 1, 2, 3, 4}, {3, 4, 5}, {0}, {1}>>         \* the last two: single compartments whose INDEX equals that of a synapse
 ViewEdges(ev) == IF ev.kind = "type" THEN OfType(ev.ty)
                  ELSE IF ev.kind = "rows" THEN {e \in OfType(ev.ty) : edges[e].pre \in RowSets[ev.k] /\ edges[e].post \in RowSets[ev.k]}
                  ELSE IF ev.k < Cardinality(OfType(ev.ty)) THEN {SeqOfSet(OfType(ev.ty))[ev.k + 1]} ELSE {}
 EdgeViews == [kind : {"type"}, ty : Types, k : {0}] \cup [kind : {"kth"}, ty : Types, k : {0, 1}]
 RowViews == [kind : {"rows"}, ty : Types, k : {1, 2}]
+DelRecViews == EdgeViews \cup [kind : {"rows"}, ty : {"P"}, k : 1..Len(RowSets)]
 Range(s) == {s[i] : i \in DOMAIN s}
 
 Wiring == obs = <<>> /\ nedit = 0
@@ -77,6 +78,14 @@ RecordE(what, ev) ==
   IN /\ Editing /\ ViewEdges(ev) # {}
      /\ recs' = recs \o new
      /\ nedit' = nedit + 1 /\ UNCHANGED <<edges, w, s0, stim, ecl, nin, obs>>
+\* <view>.delete_recordings(): the recordings of the synapses IN THE VIEW go (for a node selection: both ends inside it),
+\* every other recording stays - in particular that of a synapse whose index happens to equal a compartment index in view
+AllViewEdges(ev) == IF ev.kind = "rows" THEN {e \in E : edges[e].pre \in RowSets[ev.k] /\ edges[e].post \in RowSets[ev.k]} ELSE ViewEdges(ev)
+DelRecE(ev) ==
+  /\ Editing /\ recs # <<>>
+  /\ (ev.kind = "rows" \/ ViewEdges(ev) # {})            \* a type view exists only if the network has a synapse of that type
+  /\ recs' = SelectSeq(recs, LAMBDA p : p[2] \notin AllViewEdges(ev))
+  /\ nedit' = nedit + 1 /\ UNCHANGED <<edges, w, s0, stim, ecl, nin, obs>>
 \* <edge view>.clamp("<ty>_s", series)
 ClampE(ev) ==
   /\ Editing /\ ViewEdges(ev) # {}
